@@ -364,10 +364,8 @@ func (g *gctx) fixTime(c *Node) {
 	if c.S == "buckettime" {
 		fmtIdx = 2
 	}
-	// {time now|live|delta}: clock values, checked separately / excluded
-	if c.S == "time" && g.chance(5, "timeKeyword") {
-		pbt.Exclude("time-now-live-delta-in-differential")
-	}
+	// {time now|live|delta} are never generated here: clock values (`live`
+	// sub-property; `now` is captured per compilation)
 	caching := len(c.A) <= fmtIdx || c.A[fmtIdx].K != kLit || c.A[fmtIdx].S == "" || strings.EqualFold(c.A[fmtIdx].S, "cache")
 	if !caching {
 		return
